@@ -196,6 +196,17 @@ def rowHeight (y : Rat) (height : Option Rat) (ending : List Pending) : Rat :=
     | none => maxR (maxBottom 0 ending - y) 0
     | some h => maxR h (maxHeight 0 ending)
 
+/-- the cells of row `k` (at `y`) enter the bookkeeping: `endingCellsByRow[cell.Rowspan-1]` -/
+def arrivals (k : Nat) (y : Rat) (row : RRow) : List Pending :=
+  row.cells.map fun c => { left := c.rs - 1, id := c.id, row := k, span := c.rs - 1 + 1, y := y, bh := c.bh }
+
+/-- `endingCellsByRow = endingCellsByRow[1:]` -/
+def age (p : Pending) : Pending := { p with left := p.left - 1 }
+
+/-- "Add extra padding to make the cells the same height as the row": the cell's bottom becomes rowBottomY -/
+def finish (bottom : Rat) (p : Pending) : RDone :=
+  { id := p.id, row := p.row, span := p.span, y := p.y, bh := p.bh + (bottom - (p.y + p.bh)) }
+
 /-- the row loop; `k` = index of the current row, `pend` = cells of earlier rows that have not ended
     yet (`endingCellsByRow[j]` for j ≥ 1, flattened with their remaining row count).  Rowspans
     pointing beyond the group would index out of range in Go: wrapTable clips them, the model keeps
@@ -205,17 +216,11 @@ def rowHeight (y : Rat) (height : Option Rat) (ending : List Pending) : Rat :=
 def rowLoop (sy : Rat) : Nat → Rat → List Pending → List RRow → ROut
   | _, y, _, [] => { rows := [], cells := [], endY := y }
   | k, y, pend, row :: rest =>
-    let all := pend ++ row.cells.map (fun c =>
-      { left := c.rs - 1, id := c.id, row := k, span := c.rs - 1 + 1, y := y, bh := c.bh : Pending })
+    let all := pend ++ arrivals k y row
     let ending := all.filter (·.left = 0)
-    let later := (all.filter (·.left ≠ 0)).map (fun p => { p with left := p.left - 1 })
     let height := rowHeight y row.height ending
-    let bottom := y + height
-    -- "Add extra padding to make the cells the same height as the row": the cell's bottom becomes rowBottomY
-    let done := ending.map (fun p =>
-      { id := p.id, row := p.row, span := p.span, y := p.y, bh := p.bh + (bottom - (p.y + p.bh)) : RDone })
-    let o := rowLoop sy (k + 1) (y + height + sy) later rest
-    { rows := (y, height) :: o.rows, cells := done ++ o.cells, endY := o.endY }
+    let o := rowLoop sy (k + 1) (y + height + sy) ((all.filter (·.left ≠ 0)).map age) rest
+    { rows := (y, height) :: o.rows, cells := ending.map (finish (y + height)) ++ o.cells, endY := o.endY }
 
 /-- one row group starting at `y` -/
 def rowPass (sy y : Rat) (rows : List RRow) : ROut := rowLoop sy 0 y [] rows
